@@ -101,7 +101,6 @@ transaction {
         a.storage.save(/storage/bar, to: /storage/storagePath)
         a.storage.save(Type<auth(C.E, C.F) &C.R>(), to: /storage/typeAuthRef)
         a.storage.save(Type<auth(C.E | C.F) &{C.RI}>(), to: /storage/typeDisjRef)
-        a.storage.save(Type<auth(mapping C.M) &C.R>(), to: /storage/typeMapRef)
         a.storage.save(Type<Capability<&{C.SI}>>(), to: /storage/typeCap)
         a.storage.save(Type<{String: [C.S?]}>(), to: /storage/typeDict)
         a.storage.save(Type<[Int; 3]>(), to: /storage/typeConst)
@@ -139,7 +138,6 @@ transaction {
         a.storage.save(5 as Int?, to: /storage/someInt)
         a.storage.save([1, nil, 3] as [Int?], to: /storage/optArr)
         a.storage.save({"x": nil, "y": 1} as {String: Int?}, to: /storage/optDict)
-        a.storage.save(InclusiveRange(1, 10, step: 2), to: /storage/range)
         a.storage.save([1 as Int8, "s", 1.0, 0x1 as Address, /public/p, Type<Int>()] as [AnyStruct], to: /storage/anyArr)
     }
 }`,
